@@ -68,7 +68,7 @@ func (s scenario) String() string {
 		ex += " DynamicRecordSizingDisabled"
 	}
 	if s.via != 0 {
-		ex += []string{"", " via Config.Clone()", " via GetConfigForClient -> Clone()"}[s.via]
+		ex += []string{"", " via Config.Clone()", " via GetConfigForClient -> Clone()", " via GetConfigForClient behind a decoy Config"}[s.via]
 	}
 	return ex2(ex, fmt.Sprintf("server=%s client=%s cSuites=%04x sSuites=%04x preferServer=%v clientAuth=%d clientCert=%d callbacks=%v ticketsOff=%v vers=%04x stdCert=%d",
 		modeNames[s.mode], cliNames[s.client], s.cSuites, s.sSuites, s.preferServer, s.auth, s.clientCert, s.callbacks, s.ticketsOff, s.vers, s.stdCert))
@@ -342,6 +342,21 @@ func runScenario(c *harness.Ctx, s scenario, app [2]tlsk.App, kind string) {
 		case 2:
 			inner := scfg
 			scfg = &gmtls.Config{Time: inner.Time, Rand: inner.Rand, GMSupport: inner.GMSupport, GetConfigForClient: func(*gmtls.ClientHelloInfo) (*gmtls.Config, error) { return inner.Clone(), nil }}
+		case 3:
+			// the Config given to Server() is a decoy that says the opposite of the real one wherever
+			// the two can differ; the handshake must follow the Config that GetConfigForClient returns
+			inner := scfg
+			outer := &gmtls.Config{Time: inner.Time, Rand: inner.Rand, GMSupport: inner.GMSupport, Certificates: []gmtls.Certificate{p.StdClientUntrusted},
+				PreferServerCipherSuites: !inner.PreferServerCipherSuites, SessionTicketsDisabled: !inner.SessionTicketsDisabled, ClientCAs: p.Roots2,
+				MinVersion: 0x0301, MaxVersion: 0x0301, ClientAuth: gmtls.RequireAndVerifyClientCert, CipherSuites: []uint16{gmtls.TLS_RSA_WITH_RC4_128_SHA},
+				GetConfigForClient: func(*gmtls.ClientHelloInfo) (*gmtls.Config, error) { return inner, nil }}
+			if inner.ClientAuth == gmtls.RequireAndVerifyClientCert {
+				outer.ClientAuth = gmtls.NoClientCert
+			}
+			if s.vers == 0x0301 {
+				outer.MinVersion, outer.MaxVersion = 0x0303, 0x0303
+			}
+			scfg = outer
 		}
 		ss = tlsk.GMEnd(scfg, false, app[1], &sv, nil)
 	}
@@ -537,7 +552,7 @@ func gmUnit(mode int, part, parts int, full bool) harness.Unit {
 									if n%parts != part {
 										continue
 									}
-									for via := 0; via < 3; via++ {
+									for via := 0; via < 4; via++ {
 										runScenario(c, scenario{mode: mode, client: cliGM, cSuites: cl, sSuites: sl, preferServer: pref, auth: auth, clientCert: cert, callbacks: cb, ticketsOff: toff, via: via}, smallApp, "gm")
 									}
 								}
@@ -565,7 +580,7 @@ func tlsUnit(full bool) harness.Unit {
 								if !full && auth != gmtls.NoClientCert && !(v == 0x0303 && sc == 0) {
 									continue
 								}
-								for via := 0; via < 3; via++ {
+								for via := 0; via < 4; via++ {
 									runScenario(c, scenario{mode: mode, client: cli, vers: v, stdCert: sc, auth: auth, clientCert: cert, callbacks: mode == modeAuto, via: via}, smallApp, "tls")
 								}
 								if mode != modeAuto && (v == 0 || v == 0x0303 || full) {
